@@ -60,9 +60,13 @@ for g, cats in [("distinct", "straight flush / flush / straight / high card (257
     ob("C01.rep_%s" % g, "c01::rep_%s" % g, {"C01": "P", "C02": "H"},
        "for EVERY class of %s (symbolic sorted rank tuple + flush flag): the canonical hand of the class evaluates, through the real code end to end (real search), to ordinal(class), in 1..=7462" % cats,
        EVAL5, unwind=15, timeout=1500, weight=4, concretise=["C01.direct_any"])
-ob("C01.entry_points", "c01::entry_points", {"C01": "P", "C04": "P", "C06": "P", "C05": "P"},
-   "forall five words, forall v: if hand_rank_value_and_hand returns (v, self) then hand_rank_value() == v, hand_rank() == HandRank::from(v), hand_rank_value_validated() == (valid ? v : 0) without evaluating invalid hands, evaluate::five_cards == that; is_valid exact",
-   ["Five::hand_rank_value", "Five::hand_rank", "Five::hand_rank_value_validated", "evaluate::five_cards", "Five::is_valid"],
+ob("C01.entry_points", "c01::entry_points", {"C01": "P", "C06": "P", "C05": "P", "C04": "P"},
+   "forall five words, forall v: if hand_rank_value_and_hand returns (v, self) then hand_rank_value() == v and hand_rank() == HandRank::from(v); on five distinct real cards hand_rank_value_validated() == v and evaluate::five_cards == v; on any other words the validated forms return normally with v or 0",
+   ["Five::hand_rank_value", "Five::hand_rank", "Five::hand_rank_value_validated", "evaluate::five_cards"],
+   unwind=9, stubs=[FIXED5], timeout=900, weight=2)
+ob("C04.validated_five", "c01::validated_five", {"C04": "P"},
+   "forall five words, forall v: is_valid <=> every slot a card word and no two equal; hand_rank_value_validated() and evaluate::five_cards are 0 exactly when not valid (the evaluation is not called) and otherwise the value v the evaluation returns",
+   ["Five::is_valid", "Five::hand_rank_value_validated", "evaluate::five_cards"],
    unwind=9, stubs=[FIXED5], timeout=900, weight=2)
 for g in ["flush", "distinct_nonflush", "quads", "full_house", "trips", "two_pair", "pair"]:
     ob("C01.direct_%s" % g, "c01::direct_%s" % g, {"C01": "P"},
